@@ -54,7 +54,8 @@ var Check = &vrt.Check{
 // ---------------------------------------------------------------------------------------------
 // universe
 
-var mids = []string{"AAAAAAAAAAA1", "B2", "c3X"}
+// the second and third identifier differ in letter case only: two messages, wherever file names are case-sensitive
+var mids = []string{"AAAAAAAAAAA1", "B2", "b2"}
 
 const (
 	addrA    = "N0AAA"
